@@ -51,6 +51,8 @@ pub enum RK {
     Fold { srcs: Vec<Hid>, init: i64, f: F2 },
     Zip { a: Hid, b: Hid },
     MapRef { src: Hid, proj: u8 },
+    ZipQ { a: Hid, b: Hid },
+    MapRefQ { src: Hid },
     MapWithOld { src: Hid, f: F1 },
     DependOn { a: Hid, b: Hid },
     Bind { lhs: Hid, outers: Vec<Hid>, memos: Vec<usize>, body: Arc<BodySpec> },
@@ -138,6 +140,8 @@ pub enum Ev {
     /// automatic read of an observer handle after a top-level action
     Read { oid: usize, clone: usize, res: RR },
     VarGet { vid: usize, val: MV },
+    /// nodes whose weak handle still upgrades, sampled right after a stabilise
+    Alive { hids: Vec<Hid> },
     Audit { lines: Vec<String>, after_stabilise: bool },
     Panic { msg: String, injected: bool, ctx: Ctx },
     /// free-form marker (teardown steps, protocol steps)
